@@ -65,7 +65,7 @@ def cstr : List Nat → List Nat
 
 /-- `if (!memcmp(p, "\xef\xbb\xbf", 3)) p += 3;` -/
 def skipBOM : List Nat → List Nat
-  | 0xEF :: 0xBB :: 0xBF :: rest => rest
+  | a :: b :: c :: rest => if a = 0xEF ∧ b = 0xBB ∧ c = 0xBF then rest else a :: b :: c :: rest
   | l => l
 
 /-- `canonicalize_newline` -/
